@@ -28,6 +28,7 @@ from __future__ import annotations
 
 import ast
 import contextlib
+import copy
 import dataclasses
 import datetime
 import operator
@@ -458,8 +459,14 @@ def load(val: _T) -> PythonValueT | _T:
     Args:
         val: The value to decode.
     """
+    if not inspection.istexttype(val.__class__):
+        return val
     # Decode first: `strload` is memoized, and a `bytearray` (or a view of one) is not hashable.
-    return strload(decode(val)) if inspection.istexttype(val.__class__) else val  # type: ignore[arg-type]
+    loaded = strload(decode(val))  # type: ignore[arg-type]
+    # The memo must not hand out its own mutable containers.
+    if isinstance(loaded, (list, dict, set)):
+        return copy.deepcopy(loaded)
+    return loaded
 
 
 @compat.lru_cache(maxsize=100_000)
